@@ -9,6 +9,8 @@ Record case := {
   c_accs : list (Z * (Z * Z * Z));     (* initial accounts: address, (unibi, nonce, code id) *)
   c_stor : list (Z * Z * Z);           (* initial storage *)
   c_script : list prog;
+  c_blocked : list Z;                  (* model addresses that are blocked module accounts *)
+  c_fail : bool;                       (* StateDB.Commit returned an error (or the run panicked) *)
   c_obs : observed
 }.
 
@@ -32,14 +34,17 @@ Fixpoint obs_eqb (x y : list obs) : bool :=
 
 (** model of the CURRENT code (repaired = true) with the call limit read from /repo *)
 Definition model_run (mx : Z) (c : case) : sdb :=
-  run (PFrame (c_script c) false) (init {| repaired := true; maxc := mx |} (store_of c)).
+  run (PFrame (c_script c) false) (init {| repaired := true; maxc := mx; blocked := c_blocked c |} (store_of c)).
 
 Definition mismatch (mx : Z) (c : case) : bool :=
   let s := model_run mx c in
-  negb (final_matches (commit s) (aux s) (c_obs c) && obs_eqb (rev (out s)) (o_views (c_obs c))).
+  if commit_fails s then negb (c_fail c)      (* Commit must fail; what a failed Commit leaves behind is not compared *)
+  else c_fail c || negb (final_matches (commit s) (aux s) (c_obs c) && obs_eqb (rev (out s)) (o_views (c_obs c))).
 
 (** scripts outside the reference's domain (see [wf]) are compared with the model only *)
-Definition in_domain (mx : Z) (c : case) : bool := wf_body mx (c_script c) (r_init (store_of c)).
+Definition in_domain (mx : Z) (c : case) : bool :=
+  wf_body mx (c_script c) (r_init (c_blocked c) (store_of c)) &&
+  negb (r_pending (rrun mx (PFrame (c_script c) false) (r_init (c_blocked c) (store_of c)))).
 
 Definition violates (mx : Z) (c : case) : bool :=
-  in_domain mx c && negb (Pb mx (store_of c) (c_script c) (c_obs c)).
+  in_domain mx c && (c_fail c || negb (Pb mx (c_blocked c) (store_of c) (c_script c) (c_obs c))).
